@@ -9,9 +9,13 @@ CARRIERS_WITH_BIT = ('Bucket', 'Cursor', 'Buckets')
 
 def _writable_fns(facts):
     out = set()
-    for q in ('TxLock::writable', 'Tx::writable'):
-        f = facts.fn(q)
-        if f is not None:
+    # the TxLock method returning bool, and Tx methods returning bool that call it (roles, names only as tie-break)
+    cg = facts.callgraph()
+    for f in facts.fns:
+        if f.kind == 'AssocFn' and not f.trait and f.self_adt and f.self_adt.endswith('TxLock') and f.locals[0]['ty'] == 'bool':
+            out.add(f.path)
+    for f in facts.fns:
+        if f.kind == 'AssocFn' and not f.trait and f.self_adt and f.self_adt.endswith('::Tx') and f.locals[0]['ty'] == 'bool' and any(g.path in out for g in cg.get(f, ())):
             out.add(f.path)
     return out
 
